@@ -4732,7 +4732,11 @@ class Terminated(Construct):
         self.flagbuildnone = True
 
     def _parse(self, stream, context, path):
-        if stream.read(1):
+        try:
+            data = stream.read(1)
+        except Exception:
+            raise StreamError("stream.read() failed when checking for end of stream", path=path)
+        if data:
             raise TerminatedError("expected end of stream", path=path)
 
     def _build(self, obj, stream, context, path):
